@@ -157,6 +157,11 @@ func (ds *Dataset) ReleaseFullSyncLease(fullSyncID string) error {
 
 // CompleteFullSync Full sync completed - mark unseen entities as deleted
 func (ds *Dataset) CompleteFullSync(ctx context.Context) error {
+	if !ds.fullSyncStarted {
+		// the sync was abandoned (its lease expired) or never started: the set of seen
+		// entities is gone, completing would mark every entity of the dataset as deleted
+		return errors.New("no fullsync in progress, can't complete")
+	}
 	defer func() {
 		ds.fullSyncStarted = false
 		ds.fullSyncSeen = make(map[uint64]int) // release sync state
